@@ -60,6 +60,10 @@ Definition raise (K : cfg) (rs : reason) (k : cfg -> rtree) : rtree :=
   | None => RRaise (Some dead) (RRet None RFail [] false)
   end.
 
+(** in front of a symbol that has not been consumed an error is no place to pause *)
+Definition raise0 (K : cfg) (rs : reason) (k : cfg -> rtree) : rtree :=
+  match raise K rs k with RRaise _ t => RRaise None t | t => t end.
+
 Fixpoint break_to (K : cfg) (l : N) : option cfg :=
   match K with
   | [] => None
@@ -209,7 +213,7 @@ Fixpoint emit (fuel : nat) (ss : list (stmt * cfg)) (ovf : cfg -> rtree) (k : rt
   match ss with
   | [] => k
   | (SAct p, _) :: r => RAct None p (emit f r ovf k)
-  | (SAppC t p, Kc) :: r => RTest None t (raise Kc OutOfSpace ovf) (RAct None p (emit f r ovf k))
+  | (SAppC t p, Kc) :: r => RTest None t (raise0 Kc OutOfSpace ovf) (RAct None p (emit f r ovf k))
   | (SIf brs els, Kc) :: r =>
       (fix chain (brs : list ibranch) : rtree :=
          match brs with
@@ -225,7 +229,7 @@ Definition consumed (done : nat) (f : nat) (rec : cfg -> rtree) (Kafter Kctx : c
   emit f (each_from done Kctx) rec
     match app with
     | None => after
-    | Some (t, p) => RTest None t (raise Kctx OutOfSpace rec) (RAct None p after)   (* full: the handler gets this very symbol *)
+    | Some (t, p) => RTest None t (raise0 Kctx OutOfSpace rec) (RAct None p after)   (* full: the handler gets this very symbol *)
     end.
 
 Definition vec_of (cls : list clause) : list (re * nat) :=
@@ -305,7 +309,7 @@ Fixpoint feed (skip : bool) (noeach : nat) (fuel : nat) (K : cfg) (s : sym) : rt
         (if nullable d && negb (can_continue d) then consumed f handler K' K' app
          else consumed f handler (FM d app :: K') K' app)
       else if nullable r then again K'                           (* ended by lookahead *)
-      else raise K' NoMatch handler
+      else raise0 K' NoMatch handler
   | FW r0 r :: K' =>
       let d := deriv s r in
       if negb (void d) then
@@ -330,7 +334,7 @@ Fixpoint feed (skip : bool) (noeach : nat) (fuel : nat) (K : cfg) (s : sym) : rt
           | Some i => again (FSeq (clause_body cls i) :: K')
           | None => match els with
                     | Some e => again (FSeq e :: K')
-                    | None => raise K' NoMatch handler
+                    | None => raise0 K' NoMatch handler
                     end
           end
       end
@@ -346,7 +350,7 @@ Fixpoint feed (skip : bool) (noeach : nat) (fuel : nat) (K : cfg) (s : sym) : rt
       | [] =>
           match (if started then best_done gcls vec else None) with
           | Some i => again (FSeq (gbody gcls i) :: K')
-          | None => raise K' NoMatch handler
+          | None => raise0 K' NoMatch handler
           end
       end
   | _ => RFuel
